@@ -61,6 +61,7 @@ let run_case_and_print (c : case) =
      (* file names of the run, rendered by the model: "fname <callback> <k> <tmp name> <final name>" *)
      let names cb stems = List.iteri (fun k st -> Printf.printf "fname %s %d %s %s\n" cb k (str_of (x_tmp_name st)) (str_of (x_final_name st c.range.o_start (x_last_height r)))) stems in
      names "csv" x_csv_stems; names "unspent" [x_unspent_stem]; names "balances" [x_balances_stem];
+     Printf.printf "header unspent %s\nheader balances %s\n" (strip_nl (str_of x_unspent_header)) (strip_nl (str_of x_balances_header));
      let want w = List.mem w c.want in
      if want "csv" then begin
        List.iter (fun (i, row) -> Printf.printf "csv%d %s\n" (int_of_nat i) (strip_nl (str_of row))) (x_csv_writes del);
